@@ -5,4 +5,6 @@ CONSTANTS
   MethodLists = "q"
   Exported = {FALSE}
   Tagged = {FALSE}
+  Preludes = {"none"}
+  Shadows = {FALSE}
 INVARIANTS TypeOK TwinSame GroupingIrrelevant OutputShape Export
